@@ -171,6 +171,26 @@ Theorem C14_store_chunk_roundtrip : forall H zcomp zdecomp,
 Proof. exact transport_put. Qed.
 Print Assumptions C14_store_chunk_roundtrip.
 
+(* A PUT answered 200 stored the decoded body re-encoded for the store -- for EVERY body, of any
+   length: there is no size at which the handler keeps less than it received ... *)
+Theorem C14_put_200_stores : forall H zcomp zdecomp c s r rs s',
+  r_method r = PUT -> chunk_handle H zcomp zdecomp c s r = (rs, s') -> status rs = 200 ->
+  exists ib d,
+    id_from_path (c_compressed c) (r_path r) = Some ib /\
+    from_storage zdecomp (handler_conv c) (r_body r) = Some d /\
+    lookup (id_of_bytes ib) (ls_files s') = Some (to_storage zcomp (opt_converters (ls_uncompressed s)) d).
+Proof. exact put_200_stores. Qed.
+Print Assumptions C14_put_200_stores.
+
+(* ... with an uncompressed server in front of an uncompressed store the file IS the body *)
+Theorem C14_put_200_stores_body : forall H zcomp zdecomp c s r rs s',
+  r_method r = PUT -> c_compressed c = false -> ls_uncompressed s = true ->
+  chunk_handle H zcomp zdecomp c s r = (rs, s') -> status rs = 200 ->
+  exists ib, id_from_path false (r_path r) = Some ib /\
+             lookup (id_of_bytes ib) (ls_files s') = Some (r_body r).
+Proof. exact put_200_stores_body. Qed.
+Print Assumptions C14_put_200_stores_body.
+
 (* ---------- indexes over HTTP ---------- *)
 
 (* GET: the index that is in the file (as decoded by the server) arrives unchanged; a name
